@@ -1,0 +1,14 @@
+//go:build verif
+
+package extractor
+
+// VerifExtractorWithCounts returns an Extractor that reads nothing and whose three line counters
+// (unexported, atomically updated by the workers) hold the given values, so that a verification
+// harness can hand chosen counter values to the code that formats them (cmd/helpers/summary.go).
+func VerifExtractorWithCounts(read, matched, ignored uint64) *Extractor {
+	return &Extractor{
+		readLines:    read,
+		matchedLines: matched,
+		ignoredLines: ignored,
+	}
+}
